@@ -326,7 +326,11 @@ Definition lan_authenticate (given : option bool) (retries : nat) : M unit :=
 Fixpoint read_available (fuel : nat) (acc : list N) : M (list N) :=
   match fuel with
   | O => ret acc
-  | S f => mcatch (dom x <- lan_read false; read_available f (acc ++ [x])) [EQueueEmpty] (fun _ => ret acc)
+  | S f =>
+    (* an invalid packet (ProtocolError) is skipped; QueueEmpty ends the loop *)
+    mcatch (dom r <- mcatch (dom x <- lan_read false; ret (Some x)) [EProtocol] (fun _ => ret None);
+            read_available f (match r with Some x => acc ++ [x] | None => acc end))
+           [EQueueEmpty] (fun _ => ret acc)
   end.
 
 Definition queue_len : M nat := dom c <- the_conn; ret (length (c_q c)).
